@@ -20,7 +20,10 @@ import (
 	"verifharness/internal/a20"
 )
 
-const raceUsers = `[{"token":"AAA","id":"1"},{"token":"BBB","id":"2"},{"token":"CCC","id":"3"},{"token":"DDD","id":"4"},{"token":"EEE","id":"5"}]`
+// one user's token contains "nok" (the HTTP target then answers "result":"bad": the assert/response
+// postprocessor of `list` fails on a delivered answer); one user's id is not a number (the gRPC
+// target answers InvalidArgument to Auth: the assert/response postprocessor of `auth` fails)
+const raceUsers = `[{"token":"AAA","id":"1"},{"token":"BBB","id":"2"},{"token":"noknok","id":"3"},{"token":"DDD","id":"x4"},{"token":"EEE","id":"5"}]`
 
 func httpScenarioFile(variant string) string {
 	pre := `        u: source.users[next]
@@ -76,11 +79,14 @@ requests:
           res: $.result
   - name: list
     method: GET
-    uri: /list/{{.request.auth.postprocessor.tok}}
+    uri: /list/{{.request.auth.preprocessor.u.token}}/{{.request.auth.postprocessor.tok}}
     tag: list
     headers:
       Authorization: "Bearer {{.request.auth.postprocessor.tok}}"
       X-Res: "{{.request.auth.postprocessor.res}}"
+    postprocessors:
+      - type: assert/response
+        body: ['"result":"ok"']
 scenarios:
   - name: s1
     weight: 1
@@ -132,7 +138,10 @@ calls:
     preprocessors:
       - type: prepare
         mapping:
-` + pre + `  - name: hello
+` + pre + `    postprocessors:
+      - type: assert/response
+        status_code: 200
+  - name: hello
     tag: hello
     call: target.TargetService.Hello
     metadata:
@@ -153,7 +162,8 @@ scenarios:
 // runRaceCase runs in the subprocess: N instances of one pool kind under the real engine,
 // configured through the real config decoder and plugin registry.
 func runRaceCase(f []string) string {
-	pool, variant := f[1], f[4]
+	pool, variant := f[1], strings.TrimSuffix(f[4], "c")
+	composite := strings.HasSuffix(f[4], "c")
 	ninst, _ := strconv.Atoi(f[2])
 	nshots, _ := strconv.Atoi(f[3])
 	mfs := afero.NewMemMapFs()
@@ -206,15 +216,26 @@ func runRaceCase(f []string) string {
 	default:
 		return "unknown-pool"
 	}
+	// shared rps schedule: one unlimited part, or (variant suffix c) a composite of many short
+	// finite and unlimited parts, so that the instances cross part boundaries together
+	rps := "[{type: unlimited, duration: 30s}]"
+	if composite {
+		var parts []string
+		for i := 0; i < 40; i++ {
+			parts = append(parts, fmt.Sprintf("{type: once, times: %d}", 2+i%5), "{type: unlimited, duration: 2ms}")
+		}
+		parts = append(parts, "{type: unlimited, duration: 30s}")
+		rps = "[" + strings.Join(parts, ", ") + "]"
+	}
 	y := fmt.Sprintf(`pools:
   - id: P
     gun: %s
     ammo: %s
     result: {type: phout, destination: /phout.log}
-    rps: [{type: unlimited, duration: 30s}]
+    rps: %s
     startup: [{type: once, times: %d}]
 log: {level: error}
-`, gun, ammo, ninst)
+`, gun, ammo, rps, ninst)
 	mapCfg := map[string]any{}
 	if err := yaml.Unmarshal([]byte(y), &mapCfg); err != nil {
 		return "yamlerr:" + err.Error()
@@ -228,5 +249,40 @@ log: {level: error}
 	defer cancel()
 	err = eng.Run(ctx)
 	eng.Wait()
-	return fmt.Sprintf("done err=%v", err)
+	// one phout line per reported sample
+	samples := 0
+	if b, rerr := afero.ReadFile(mfs, "/phout.log"); rerr == nil {
+		samples = strings.Count(string(b), "\n")
+	}
+	// what must hold whatever the schedule: the run ends without error, every ammo was shot, and
+	// every sample stands for exactly one exchange with the target (or one locally failed entry)
+	want, seen := -1, int(hs.Count)
+	switch pool {
+	case "http":
+		want = nshots
+	case "httpscen":
+		want = seen
+	case "grpcscen":
+		want, seen = int(gs.Count()), int(gs.Count())
+	}
+	if err != nil {
+		return "enginerr:" + strings.ReplaceAll(err.Error(), " ", "_")
+	}
+	if pool == "grpc" {
+		// entries cycle good, good, unknown method, ill-typed: calls = samples - locally failed entries
+		local := nshots / 4 * 2
+		if nshots%4 == 3 {
+			local++
+		}
+		if samples != nshots || int(gs.Count()) != nshots-local {
+			return fmt.Sprintf("counts:samples=%d,ammo=%d,target=%d,local=%d", samples, nshots, gs.Count(), local)
+		}
+		return "done"
+	}
+	if samples != want {
+		return fmt.Sprintf("counts:samples=%d,expected=%d,target=%d", samples, want, seen)
+	}
+	return "done"
 }
+
+
